@@ -29,6 +29,8 @@ THEOREMS = [
     "BeyondVerif.C04.consumers_function_of_instant",
     "BeyondVerif.C04.utc_fields_function_of_instant",
     "BeyondVerif.C04.consumers_within_slack",
+    "BeyondVerif.C04.nodeLookup_by_instant",
+    "BeyondVerif.C04.consumers_take_no_own_scale_reading",
     "BeyondVerif.C04.parse_date_passes_scale",
     "BeyondVerif.C04.parse_date_call_sites_use_time_system",
     "BeyondVerif.C04.parseDate_scale_reaches_date",
@@ -45,6 +47,7 @@ THEOREMS = [
     "BeyondVerif.C04W.foreign_segment_scale_moves_instants",
     "BeyondVerif.C04W.same_day_shortcut_keeps_wrong_record",
     "BeyondVerif.C04W.eop_day_own_scale_depends_on_label",
+    "BeyondVerif.C04W.reading_key_confuses_labels",
 ]
 LEVEL_TEXT = ("Lean theorems over C03's faithful integer model of beyond's Date (Model/Date.lean: constructor with offset and EOP record looked up by UTC day, "
               "_convert_to_scale, change_scale, + / - timedelta, comparisons, datetime readings) instantiated with the scale graph, _scale_* methods and IERS tables "
@@ -52,7 +55,9 @@ LEVEL_TEXT = ("Lean theorems over C03's faithful integer model of beyond's Date 
               "constructed date carries the record of its own UTC day and the record is a function of the instant (leap seconds included, by monotonicity of the "
               "regenerated leap table); change_scale between UTC/TAI/TT/GPS keeps instant and record exactly (UT1: 1.5 us); date + t carries the record of ITS OWN UTC "
               "day and is the same instant with the same record under every label of the operand; time since epoch, ordering/equality/hash, interpolation abscissa "
-              "and the UTC calendar reading handed to SGP4 / written to a TLE are functions of the instant. CCSDS: a string-level model of parse_date (strptime cascade "
+              "and the UTC calendar reading handed to SGP4 / written to a TLE are functions of the instant; an index of dated nodes keyed by what hash/== see answers by instant only "
+              "(keyed by the clock reading `.datetime` it confuses labels: witness), and the date-consuming modules (regenerated list of every `.datetime`/`.mjd`/`.jd`/strftime/%-format "
+              "site in propagators, ephemeris, interpolator, maneuvers, listeners, Sun/Moon, TLE writer) take a clock reading only after an explicit change_scale. CCSDS: a string-level model of parse_date (strptime cascade "
               "regenerated from commons.py) with the theorem that the TIME_SYSTEM reaches the constructed date on every format branch and from every reader call site; "
               "every epoch emission site of the OPM/OEM/OMM/TDM writers (regenerated) converts to the message's TIME_SYSTEM, and write-then-read keeps the instant of an epoch "
               "labelled in any scale (exact for UTC/TAI/TT/GPS, 2.5 us with UT1/TDB; fixed by aa1842c, regression witness kept). "
@@ -75,7 +80,9 @@ NOT_COVERED = ["that every public operation consumes its date only through the m
 OPEN = []
 RULE = ("oracle: for each operation (SGP4, native SGP4, Kepler, J2, numerical, CW, Sun/Moon, frame conversion, ephemeris interpolation, event detection, "
         "TLE writing, CCSDS OPM/OEM/OMM/TDM writing+reading in every legal spelling of the epochs, single objects and lists of objects (one segment each), Date + / - timedelta, "
-        "DateRange / Ephem iteration, and HISTORIES of several instants on one bound object across leap seconds and UTC midnights) the result for the instant "
+        "DateRange / Ephem iteration, HISTORIES of several instants on one bound object across leap seconds and UTC midnights, and COINCIDENT READINGS — a request that shows, under another label, "
+        "exactly the clock reading of a date the object holds: a tabulated point of an ephemeris (linear / Lagrange, steps 1-60 s, interpolate / iter), the orbit's epoch, a maneuver, "
+        "the previous request on the same object) the result for the instant "
         "labelled UTC is compared with the result for the same instant in each of the other 5 scales, for the argument date and for the object's epoch; "
         "non-trivial = label differs from UTC; distinct = (operation, instant, labels)")
 
@@ -349,6 +356,75 @@ def writer_epoch_sites():
     return sorted(set(sites))
 
 
+# ---- consumers of dates: every place a clock READING (not the instant) of a date is taken
+
+CONSUMER_FILES = ("propagators/base.py", "propagators/sgp4.py", "propagators/sgp4beta.py", "propagators/kepler.py", "propagators/j2.py",
+                  "propagators/keplernum.py", "propagators/cw.py", "propagators/listeners.py", "orbits/ephem.py", "orbits/man.py",
+                  "utils/interp.py", "env/solarsystem.py", "io/tle.py")
+READING_ATTRS = ("datetime", "mjd", "jd", "julian_century", "strftime", "isoformat", "timetuple")
+
+
+def consumer_reading_sites():
+    """every expression in the date-consuming modules that takes a clock READING of a date — `.datetime`, `.mjd`, `.jd`,
+    `.julian_century`, `strftime` / a `%`-format spec — with the scale it is taken in: `converted:<SCALE>` when the receiver is
+    `<expr>.change_scale("<SCALE>")` (directly, or a local name every assignment of which in the function is such a
+    conversion or a reading of one), else `own-scale` (the reading then depends on the label the caller chose).
+    `_mjd` / `_datetime` / comparisons / subtraction are the instant and are not listed."""
+    sites = []
+    for rel in CONSUMER_FILES:
+        path = os.path.join(core.REPO, "beyond", rel)
+        if not os.path.exists(path):
+            raise RuntimeError(f"beyond/{rel}: file not found")
+        src = open(path).read()
+        tree = ast.parse(src)
+        funcs = [n for n in ast.walk(tree) if isinstance(n, (ast.FunctionDef, ast.Lambda))]
+        for func in funcs:
+            assigns = {}
+            for n in ast.walk(func):
+                if isinstance(n, ast.Assign):
+                    for t in n.targets:
+                        if isinstance(t, ast.Name):
+                            assigns.setdefault(t.id, []).append(n.value)
+                elif isinstance(n, (ast.AugAssign, ast.For, ast.comprehension)) and isinstance(getattr(n, "target", None), ast.Name):
+                    assigns.setdefault(n.target.id, []).append(None)
+            params = {a.arg for a in (func.args.args + func.args.kwonlyargs + func.args.posonlyargs)}
+
+            def conv(node, depth=0):
+                """the scale the value of `node` has been converted to, or None"""
+                if isinstance(node, ast.Call) and isinstance(node.func, ast.Attribute) and node.func.attr == "change_scale" \
+                        and len(node.args) == 1 and not node.keywords and isinstance(node.args[0], ast.Constant) and isinstance(node.args[0].value, str):
+                    return node.args[0].value
+                if isinstance(node, ast.Attribute) and node.attr in READING_ATTRS:
+                    return conv(node.value, depth)
+                if isinstance(node, ast.Name) and depth < 3 and node.id in assigns and None not in assigns[node.id]:
+                    # a parameter re-assigned (`date = date.change_scale("TDB")`) is converted from that statement on; readings are
+                    # listed with the conversion only when every assignment converts to the same scale
+                    got = {conv(v, depth + 1) for v in assigns[node.id] if not (isinstance(v, ast.Name) and v.id == node.id)}
+                    if len(got) == 1 and None not in got:
+                        return got.pop()
+                return None
+            name = getattr(func, "name", "<lambda>")
+            own = [n for n in ast.walk(func)]
+            for n in own:
+                recv = None
+                if isinstance(n, ast.Attribute) and n.attr in READING_ATTRS and isinstance(n.ctx, ast.Load):
+                    if isinstance(n.value, ast.Name) and n.value.id in ("datetime", "_dtm"):
+                        continue                                     # the module `datetime`
+                    recv = [n.value]
+                elif isinstance(n, ast.FormattedValue) and n.format_spec is not None and "%" in (ast.get_source_segment(src, n.format_spec) or _src(src, n)):
+                    recv = [n.value]
+                elif isinstance(n, ast.Call) and isinstance(n.func, ast.Attribute) and n.func.attr == "format" and isinstance(n.func.value, ast.Constant) \
+                        and isinstance(n.func.value.value, str) and ":%" in n.func.value.value:
+                    fmt = n.func.value.value
+                    for r in ([a for a in n.args if "{:%" in fmt] + [k.value for k in n.keywords if k.arg and "{" + k.arg + ":%" in fmt]):
+                        sc = conv(r)
+                        sites.append((f"{rel}:{name}", f"<format with a % field>.format({_src(src, r)})", f"converted:{sc}" if sc else "own-scale"))
+                for r in recv or []:
+                    sc = conv(r)
+                    sites.append((f"{rel}:{name}", _src(src, n), f"converted:{sc}" if sc else "own-scale"))
+    return sorted(set(sites))
+
+
 def extract_ccsds_dates():
     tree = ast.parse(open(os.path.join(_ccsds_dir(), "commons.py")).read())
     brs = parse_date_branches(tree)
@@ -358,7 +434,8 @@ def extract_ccsds_dates():
     wsites = writer_epoch_sites()
     if not any(k == "head" for _, _, k in wsites):
         raise RuntimeError("no epoch emission found in the CCSDS writers")
-    txt = ["/- GENERATED by harness/props/C04.py from beyond/io/ccsds/*.py (AST) — do not edit. -/",
+    rsites = consumer_reading_sites()
+    txt = ["/- GENERATED by harness/props/C04.py from beyond/io/ccsds/*.py and the date-consuming modules (AST) — do not edit. -/",
            "namespace BeyondVerif.Generated",
            "/-- `parse_date`: the `Date.strptime(string, FMT, scale=scale)` calls in the order the `try … except ValueError` cascade",
            "tries them: (format, is the scale parameter handed on?) -/",
@@ -369,6 +446,10 @@ def extract_ccsds_dates():
            "TIME_SYSTEM, converted = `in_scale(date, head.scale)` with the head of the same segment, creation = `Date.now()` of the header,",
            "foreign-scale = converted to another scale than the segment's TIME_SYSTEM, raw = a date in its own scale -/",
            "def writerEpochSites : List (String × String × String) := [" + ",\n  ".join(f"({_lean_str(w)}, {_lean_str(e)}, {_lean_str(k)})" for w, e, k in wsites) + "]",
+           "/-- every expression of the date-consuming modules (propagators, ephemeris, interpolator, maneuvers, listeners, Sun/Moon, TLE",
+           "writer) that takes a clock READING of a date (`.datetime`, `.mjd`, `.jd`, `.julian_century`, `strftime`, a `%` format):",
+           "(file:function, expression, `converted:<SCALE>` when taken after `change_scale(\"<SCALE>\")`, else `own-scale`) -/",
+           "def consumerReadingSites : List (String × String × String) := [" + ",\n  ".join(f"({_lean_str(w)}, {_lean_str(e)}, {_lean_str(k)})" for w, e, k in rsites) + "]",
            "end BeyondVerif.Generated", ""]
     if core.write_if_changed(os.path.join(core.LEAN, "BeyondVerif", "Generated", "CcsdsDates.lean"), "\n".join(txt)):
         return ["Generated/CcsdsDates.lean"]
@@ -816,6 +897,7 @@ def oracle(ctx, widened):
     ccsds_mixed(out, rng, big)
     ccsds_segments(out, rng, big)
     histories(out, rng, cmp, big)
+    coincident_readings(out, rng, cmp, big)
     out.sample({"operation": "Sgp4.propagate", "instant": "tle0+…s", "labels": "6 x 6", "compared_with": "UTC/UTC baseline"})
     return out
 
@@ -1451,3 +1533,182 @@ def histories(out, rng, cmp, big):
                         ref_ = sgp4().propagate(du).copy(form="cartesian", frame="TEME")
                         cmp("history-Sgp4.iter", f"{bname}{start_off:+.0f}s/{step:+.0f}s:{k}", lab, "-", p_.copy(form="cartesian", frame="TEME"), ref_,
                             extra={"boundary": f"{B} ({bname})", "start": str(start), "step_s": step, "point": k, "date": str(p_.date)})
+
+
+# ---------------------------------------------------------------- oracle: coincident clock readings under two labels
+
+def reading_as(Date, d, lab):
+    """the date of label `lab` that SHOWS what `d` shows in its own scale (same calendar fields to the µs, other instant)"""
+    return Date(d.datetime, scale=lab)
+
+
+def coincident_readings(out, rng, cmp, big):
+    """the clock reading is not the instant.  Every object that HOLDS dates — the tabulated points of an ephemeris, the
+    epoch of an orbit, the date of a maneuver, the previous request on a bound object — is asked for a date whose
+    own-scale reading (calendar fields to the µs) is exactly the reading of a held date under ANOTHER label, i.e. an
+    instant the scale offset (TAI 36/37 s, GPS 17/18 s, TT/TDB ~69 s, UT1 < 1 s) away from it.  Anything that recognises
+    dates by what they show (`.datetime`, calendar fields, `strftime` text — an index of the nodes, a memo of the last
+    request, an `epoch reached` shortcut) instead of by the instant answers for the wrong instant here, and nowhere in
+    the `convert the date and compare` families: converting a held date keeps the instant and changes the reading.
+    Reference: a fresh object asked for the same instant relabelled in the holder's own scale / in UTC."""
+    import numpy as np
+    from beyond.dates import Date, timedelta
+    from beyond.io.tle import Tle
+    from beyond.orbits import Ephem, Orbit, StateVector
+    from beyond.orbits.man import ImpulsiveMan
+    from beyond.propagators import get_propagator
+    from beyond.propagators.sgp4beta import Sgp4Beta
+    from beyond.propagators.keplernum import KeplerNum
+    from beyond.propagators.cw import ClohessyWiltshire
+    from beyond.frames.frames import HillFrame
+    from beyond.env.solarsystem import get_body
+    with real_env("real"):
+        tle = Tle(TLES[0])
+        orb0 = tle.orbit()
+
+        def bound(pname, form, epoch_label="UTC"):
+            o = relabel(orb0.copy(form=form), epoch_label)
+            o.propagator = KeplerNum(timedelta(seconds=30), get_body("Earth")) if pname == "KeplerNum" else get_propagator(pname)()
+            return o
+
+        # ---- A. ephemerides: the request shows the reading of a tabulated point
+        src = bound("Sgp4", "tle")
+        table_labels = SCALES if big else ["UTC", rng.choice(SCALES[1:])]
+        for le in table_labels:
+            for step_s in ([60.0, 12.0, 1.0] if big else [rng.choice([60.0, 30.0, 12.0, 1.0])]):
+                n = max(41, int(2 * 150 / step_s) + 17)
+                # the table starts on a whole minute OF ITS OWN SCALE (what `orb.ephem(start=Date(..., scale=le))` produces)
+                first = Date(2018, 5, 4, 14 + rng.randrange(6), rng.randrange(60), 0, scale=le)
+                pts = [src.propagate(first + timedelta(seconds=step_s * k)).copy(form="cartesian", frame="TEME") for k in range(n)]
+                for method, order in ((("lagrange", 8), ("linear", None), ("lagrange", 3)) if big else (("lagrange", 8), ("linear", None))):
+                    kw = {"method": method} if order is None else {"method": method, "order": order}
+
+                    def fresh(pts=pts, kw=kw):
+                        return Ephem([p.copy() for p in pts], **kw)
+                    shared = fresh()
+                    nodes = rng.sample(range(n // 2 - 4, n // 2 + 5), 4 if big else 2)
+                    for ld in SCALES:
+                        if ld == le:
+                            continue
+                        for k in nodes:
+                            q = reading_as(Date, pts[k].date, ld)
+                            lo, hi = pts[5].date, pts[-6].date
+                            if not (lo < q < hi):
+                                continue
+                            inst = f"table[{le},{step_s:g}s,{method}{order or ''}]node{k}-read-as-{ld}"
+                            extra = {"table_first": str(first), "table_step_s": step_s, "table_points": n, "method": method, "order": order,
+                                     "node_shown": str(pts[k].date), "request": str(q), "same_instant_in_table_scale": str(q.change_scale(le)),
+                                     "what": "the request shows the clock reading of a tabulated point under another label; its instant is the scale offset away"}
+                            ref = fresh().interpolate(q.change_scale(le))
+                            cmp("coincident-Ephem.interpolate", inst, ld, le, (lambda q=q: fresh().interpolate(q)), ref, extra=extra)
+                            # one ephemeris asked for the node itself, then for the look-alike, then for the node again
+                            at_node = fresh().interpolate(pts[k].date)
+                            for pos_, (d_, r_) in enumerate(((pts[k].date, at_node), (q, ref), (pts[k].date, at_node))):
+                                cmp("coincident-history-Ephem.interpolate", f"{inst}:{pos_}", ld if pos_ == 1 else le, le,
+                                    (lambda d_=d_: shared.interpolate(d_)), r_, extra=extra)
+                            if ld != "UTC" and le != "UTC":
+                                cmp("coincident-Ephem.interpolate", inst + "/utc", "UTC", le, (lambda q=q: fresh().interpolate(q.change_scale("UTC"))), ref, extra=extra)
+                            if (method, order) == ("lagrange", 8) and step_s >= 12.0:
+                                # against the source of the table itself (interpolation error of an 8-point Lagrange polynomial on a LEO: < 1 m)
+                                cmp("coincident-Ephem.interpolate-vs-source", inst, ld, le, (lambda q=q: fresh().interpolate(q)),
+                                    src.propagate(q.change_scale("UTC")).copy(form="cartesian", frame="TEME"), extra=extra, pos_atol=5.0, vel_atol=0.05)
+                    # iteration of the ephemeris from a look-alike of a node: resampled, and `step=None` (the tabulated points from there on)
+                    ld = rng.choice([s_ for s_ in SCALES if s_ != le])
+                    k = n // 2
+                    q = reading_as(Date, pts[k].date, ld)
+                    for mode in ("resample", "dates", "own-step"):
+                        def run(start, mode=mode):
+                            e = fresh()
+                            if mode == "resample":
+                                return list(e.iter(start=start, stop=timedelta(seconds=2.5 * step_s), step=timedelta(seconds=step_s)))
+                            if mode == "dates":
+                                return list(e.iter(dates=[start, start + timedelta(seconds=step_s), start]))
+                            return list(e.iter(start=start, stop=pts[k + 8].date))
+                        try:
+                            got = run(q)
+                            ref_ = run(q.change_scale(le))
+                            ok = len(got) == len(ref_) and all(abs((a.date - b.date).total_seconds()) <= 3e-6 and np.all(np.abs(vec(a) - vec(b)) <= 0.05) for a, b in zip(got, ref_))
+                            obs = [(str(a.date), [float(x) for x in a[:3]]) for a in got[:3]]
+                            exp = [(str(a.date), [float(x) for x in a[:3]]) for a in ref_[:3]]
+                        except Exception as e:  # noqa: BLE001
+                            ok, obs, exp = False, repr(e), "no exception"
+                        out.count(key=("coincident-Ephem.iter", le, step_s, method, order, mode, ld), nontrivial=True, op="coincident-Ephem.iter", label=f"{ld}/{le}")
+                        if not ok:
+                            out.fail("coincident-Ephem.iter:label-dependent", "Ephem.iter started from a date that shows the reading of a tabulated point under another label differs from the same start relabelled",
+                                     {"table_first": str(first), "table_step_s": step_s, "method": method, "order": order, "mode": mode, "start": str(q), "same_instant_in_table_scale": str(q.change_scale(le))},
+                                     observed=obs, expected=exp)
+
+        # ---- B. propagators: the request shows the reading of the orbit's epoch
+        hill = HillFrame(orientation="QSW")
+        props = [("Sgp4", "tle"), ("Kepler", "keplerian_mean"), ("J2", "keplerian_mean"), ("KeplerNum", "cartesian"), ("Sgp4Beta", "tle")]
+        for pname, form in (props if big else rng.sample(props, 3)):
+            for le in (SCALES if big else rng.sample(SCALES, 2)):
+                for ld in (SCALES if big else rng.sample(SCALES, 3)):
+                    if ld == le:
+                        continue
+
+                    def mk(le_=le):
+                        if pname == "Sgp4Beta":
+                            b_ = Sgp4Beta(); b_.orbit = relabel(orb0, le_)
+                            return b_
+                        o = bound(pname, "tle" if form == "tle" else form, le_)
+                        if pname == "KeplerNum":
+                            o = relabel(orb0.copy(form="cartesian", frame="EME2000"), le_)
+                            o.propagator = KeplerNum(timedelta(seconds=30), get_body("Earth"))
+                        return o
+
+                    def call(o, d):
+                        r = o.propagate(d)
+                        return r if pname in ("Sgp4Beta", "KeplerNum") else r.copy(form="cartesian", frame="TEME")
+                    epoch = relabel(orb0, le).date
+                    q = reading_as(Date, epoch, ld)
+                    ref = call(mk("UTC"), q.change_scale("UTC"))
+                    extra = {"epoch": str(epoch), "request": str(q), "same_instant_utc": str(q.change_scale("UTC")),
+                             "what": "the request shows the clock reading of the orbit's epoch under another label"}
+                    cmp(f"coincident-{pname}", f"epoch[{le}]-read-as-{ld}", ld, le, (lambda q=q: call(mk(), q)), ref, extra=extra)
+                    # one bound object: the epoch itself, the look-alike, the epoch again
+                    obj = mk()
+                    ref0 = call(mk("UTC"), epoch.change_scale("UTC"))
+                    for pos_, (d_, r_) in enumerate(((epoch, ref0), (q, ref), (epoch, ref0))):
+                        cmp(f"coincident-history-{pname}", f"epoch[{le}]-read-as-{ld}:{pos_}", ld if pos_ == 1 else le, le, (lambda d_=d_: call(obj, d_)), r_, extra=extra)
+
+        # ---- C. maneuvers: the request shows the reading of the maneuver's date (just before / just after it)
+        d0 = Date(2016, 3, 1, 10, 0, 0)
+        for lm in (SCALES if big else rng.sample(SCALES, 2)):
+            for ld in (SCALES if big else rng.sample(SCALES, 3)):
+                if ld == lm:
+                    continue
+
+                def mkcw(lm_):
+                    prop = ClohessyWiltshire(6.9e6, frame=hill)
+                    o = Orbit([-600.0, -1500.0, 10.0, 0.0, 1.0, 0.01], d0, "cartesian", "Hill", prop)
+                    o.maneuvers = [ImpulsiveMan((d0 + timedelta(seconds=900)).change_scale(lm_), [0.0, 0.1, 0.0])]
+                    return o
+                m = mkcw(lm).maneuvers[0].date
+                q = reading_as(Date, m, ld)
+                if not (q > d0):
+                    continue
+                cmp("coincident-CW-maneuver", f"man[{lm}]-read-as-{ld}", ld, lm, (lambda q=q: mkcw(lm).propagate(q)), mkcw("UTC").propagate(q.change_scale("UTC")),
+                    vtol_scale=10.0, extra={"maneuver": str(m), "request": str(q), "same_instant_utc": str(q.change_scale("UTC"))})
+
+        # ---- D. any bound object: a request, then its look-alike under another label, then the request again
+        sv0 = StateVector([7000e3, 100e3, -2000e3, 300.0, 7400.0, 1000.0], orb0.date, "cartesian", "EME2000")
+
+        def at(sv, d):
+            sv = sv.copy(); sv.date = d
+            return sv
+        ops = {
+            "frame-EME2000-ITRF": (lambda: sv0, lambda o, d: at(o, d).copy(frame="ITRF"), {"pos_atol": 0.05}),
+            "frame-TEME-EME2000": (lambda: sv0.copy(frame="TEME"), lambda o, d: at(o, d).copy(frame="EME2000"), {}),
+            "body-Moon": (lambda: get_body("Moon"), lambda o, d: o.propagate(d), {"vtol_scale": 1100.0, "vel_rtol": 5e-8, "pos_atol": 0.06}),
+            "body-Sun": (lambda: get_body("Sun"), lambda o, d: o.propagate(d), {"vtol_scale": 3.0e4, "vel_rtol": 5e-8, "pos_atol": 2.0}),
+        }
+        for op, (make, call, tol) in (ops.items() if big else rng.sample(sorted(ops.items()), 2)):
+            p = orb0.date + timedelta(seconds=rng.randrange(86400), microseconds=rng.choice([0, 0, 250000, rng.randrange(10**6)]))
+            for lab in (SCALES[1:] if big else rng.sample(SCALES[1:], 2)):
+                q = reading_as(Date, p, lab)
+                obj = make()
+                seq = [(p, "UTC"), (q, lab), (p, "UTC"), (q, lab)]
+                for pos_, (d_, l_) in enumerate(seq):
+                    cmp(f"coincident-history-{op}", f"{p}-read-as-{lab}:{pos_}", l_, "-", (lambda d_=d_: call(obj, d_)), call(make(), d_.change_scale("UTC")),
+                        extra={"sequence": [str(x) for x, _ in seq[:pos_ + 1]], "what": "one object asked for a date and for the date of another label showing the same clock reading"}, **tol)
